@@ -558,11 +558,29 @@ def _get_variables_iterative(expr: Expression) -> set[Variable]:
             stack.append(node.operand)
             continue
 
-        # Fallback: call get_variables (might recurse for custom expressions)
-        try:
-            variables.update(node.get_variables())
-        except RecursionError:
-            # If recursion fails, we can't process this node
-            pass
+        # Nodes holding a vector / matrix operand ((x + 1).sum(), quadratic forms,
+        # matrix sums, ...): visit the elements with this stack, so that deep
+        # element expressions neither recurse nor get lost
+        handled = False
+        for attr in ("vector", "expression", "matrix", "left", "right"):
+            operand = getattr(node, attr, None)
+            if operand is None:
+                continue
+            elements = getattr(operand, "_expressions", None)
+            if elements is None:
+                elements = getattr(operand, "_variables", None)
+            if elements is not None:
+                for item in elements:
+                    stack.extend(item if isinstance(item, list) else [item])
+                handled = True
+            elif isinstance(operand, Expression):
+                stack.append(operand)
+                handled = True
+        if handled:
+            continue
+
+        # Fallback: call get_variables (might recurse for custom expressions);
+        # a RecursionError is not swallowed - losing variables silently is worse
+        variables.update(node.get_variables())
 
     return variables
